@@ -1309,7 +1309,7 @@ class element_if(x12_node):
                     self._error(errh, err_str, '8', elem_val)
                 valid = False
         if self.rec:
-            m = self.rec.search(elem_val)
+            m = self.rec.fullmatch(elem_val)
             if not m:
                 err_str = 'Data element "%s" with a value of (%s)' % \
                     (self.name, elem_val)
